@@ -9,23 +9,38 @@ spec:      spec/DpkgVersion.tla    pure operators over code points: dpkg referen
                                    HashConsistent HashImpl; prints CASE lines (pair, expected sign,
                                    expected hash-key equality) and the OPS table
            spec/TraceDpkgVersion.tla  trace validation on concrete code points
+           spec/DpkgVersionObj.tla object-level layer: object = [full, cached key]; Assign* (full_version /
+                                   epoch / upstream_version / debian_revision) recompute the key; KeyFresh,
+                                   Agree, HashConsistent in the closed state space; prints MUT lines
 binding:   (a) spec -> code: the CASE lines (a checksum-selected sample of the big configurations,
                different for every seed, plus ALL pairs of the triples configuration) are replayed into
                Version(a) < <= == != >= > Version(b), version_compare(a, b) and hash(); each abstract case
-               is concretized by order-isomorphic code points (other letters / digits)
-           (b) code -> spec: random and near-equal pairs / triples over the full valid alphabet are run
-               through the real code and every recorded comparison is validated by TLC
+               is concretized by order-isomorphic code points (other letters / digits).  Every pair is
+               compared TWICE with the other comparisons of its chunk in between, in both operand orders,
+               on POOLED Version objects that meet many partners (a third of the pool is deleted and
+               re-created between the rounds), with a plain-string operand on either side, and on fresh
+               temporaries that die after each operator (id() reuse).  The MUT lines are replayed as
+               compare - assign (full_version or one component) - compare again on the same object.
+           (b) code -> spec: random and near-equal pairs / triples / quadruples over the full valid
+               alphabet are run through the real code -- pooled objects, string operands, fresh
+               temporaries, an object MUTATED through every string of the trace (full_version and
+               component-wise), then everything again on partly re-created objects -- and every recorded
+               comparison is validated by TLC against the string the object holds at that moment
            (c) `dpkg --compare-versions` as a second, external oracle on a sample of the recorded pairs
                (thorough: ~5000, quick: a handful); skipped with a note when dpkg is absent
 spec-level negative controls (re-run in every check, TLC must report the violation):
-           HashOnString = TRUE  -> HashConsistent violated;  TildeOrderZero = TRUE -> Agree violated
+           HashOnString = TRUE  -> HashConsistent violated;  TildeOrderZero = TRUE -> Agree violated;
+           StaleKey = TRUE (object layer: the key survives an assignment) -> Agree, HashConsistent violated
 domain:    DESIGN.md D2: only valid version strings, nothing from the unspecified zone (empty revision,
            ':' after the last hyphen, nothing before the last hyphen).  The trace module re-checks it
            (TDomain); a generator bug is a machinery failure, not a finding.
 verdict observables: sign of every operator / version_compare, a == b => hash(a) == hash(b).
-diagnostic only: hash collisions of unequal versions, comparison with a plain string operand.
+                     (for whatever string the object currently holds, whatever was compared before)
+diagnostic only: hash collisions of unequal versions; an assignment that raises or does not produce the
+           intended string (C14's subject) only skips the comparisons that depend on it.
 """
 import copy
+import random
 import os
 import re
 import shutil
@@ -34,9 +49,9 @@ import subprocess
 import core
 
 MANIFEST = dict(
-    technique="TLA+ spec over code points (dpkg reference Verrevcmp/DpkgCmp + implementation layer transcribed from NativeVersion + Canon hash-key design) model-checked by TLC on all pairs/triples up to a bound; TLC-emitted cases replayed into Version/version_compare/hash; recorded comparisons over the full alphabet validated by TLC (TraceDpkgVersion); dpkg --compare-versions as external oracle",
-    text="TLC enumerates every pair of single-component versions up to 3 (thorough 4) characters over 0 1 9 A a . ~, every pair of complete versions (4 epochs x 4-6 revisions x upstream <= 2 with ':' and '-' where allowed) and every triple of a smaller universe, and checks that the transcription of NativeVersion's algorithm agrees with dpkg's, that the order is antisymmetric, total and transitive, and that the canonical hash key is exactly the kernel of the order (and that the implementation's key induces the same partition). A seed-dependent sample of the enumerated pairs plus all pairs of the small universe is replayed, with order-isomorphic concrete characters, into the six rich comparisons, version_compare and hash(); thousands of random and near-equal pairs/triples (length up to ~40, leading zeros, '~' chains, epoch 0 vs absent, revision 0 vs absent, epochs beyond 2^32) are executed on the real code and each recorded comparison is validated by TLC on the concrete code points.",
-    note="Small-scope for the exhaustive part (alphabet of 7-8 code points, bounded length); payload beyond it is sampled. Numbers are compared as digit strings in the reference (TLC integers are 32 bit); the implementation layer's int() is only model-checked on short runs. Trusted: TLC, the order-isomorphic concretizer, the observation wrapper, dpkg where present. Hash collisions of unequal versions are not a violation. Spec-level negative controls and corrupted control traces are required to fail in every run.",
+    technique="TLA+ spec over code points (dpkg reference Verrevcmp/DpkgCmp + implementation layer transcribed from NativeVersion + Canon hash-key design + object layer with Assign recomputing the cached key) model-checked by TLC on all pairs/triples up to a bound and on the closed state space of two mutable objects; TLC-emitted cases and assignments replayed into Version/version_compare/hash on long-lived, re-used, mutated objects; recorded comparisons over the full alphabet validated by TLC (TraceDpkgVersion); dpkg --compare-versions as external oracle",
+    text="TLC enumerates every pair of single-component versions up to 3 (thorough 4) characters over 0 1 9 A a . ~, every pair of complete versions (4 epochs x 3-6 revisions x upstream <= 2 with ':' and '-' where allowed) and every triple of a smaller universe, and checks that the transcription of NativeVersion's algorithm agrees with dpkg's, that the order is antisymmetric, total and transitive, and that the canonical hash key is exactly the kernel of the order (and that the implementation's key induces the same partition). An object-level layer (object = string + cached key; assignment of full_version or of one component recomputes the key) is explored to a fixed point, so agreement and hash consistency hold after any sequence of assignments. A seed-dependent sample of the enumerated pairs plus all pairs of the small universe is replayed, with order-isomorphic concrete characters, into the six rich comparisons, version_compare and hash(): every pair twice with other comparisons in between, both operand orders, on pooled long-lived objects that meet many partners and are partly re-created, with plain-string operands, and on short-lived temporaries; TLC's assignment transitions are replayed as compare / assign / compare on the same object. Thousands of random and near-equal pairs/triples/quadruples (length up to ~45, leading zeros, '~' chains, epoch 0 vs absent, revision 0 vs absent, epochs beyond 2^32) are executed on the real code the same way, including an object that is walked through every string of the trace by assignment, and each recorded comparison is validated by TLC on the concrete code points of the string the object holds at that moment.",
+    note="Small-scope for the exhaustive part (alphabet of 7-8 code points, bounded length; object layer: 48/80 versions, one mutated object); payload beyond it is sampled. Numbers are compared as digit strings in the reference (TLC integers are 32 bit); the implementation layer's int() is only model-checked on short runs. Trusted: TLC, the order-isomorphic concretizer, the observation wrapper, dpkg where present. Hash collisions of unequal versions are not a violation; an assignment that fails or recomposes another string (C14) only skips the dependent comparisons. Spec-level negative controls (HashOnString, TildeOrderZero, StaleKey) and corrupted control traces are required to fail in every run.",
     design="5 (C03)")
 
 WORKERS = min(8, core.NCPU)
@@ -59,22 +74,27 @@ def text(cp):
 
 # ------------------------------------------------------------------ observing the real code
 
-def observe(sa, sb):
-    """every verdict observable of one comparison; exceptions are observations"""
-    from debian.debian_support import Version, version_compare
-    obs = {}
-    exc = None
-
+def _guarded(obs):
     def guard(f):
-        nonlocal exc
         try:
             return f()
         except Exception as e:                      # noqa: broad on purpose
-            exc = exc or "%s: %s" % (type(e).__name__, e)
+            obs.setdefault("exc", "%s: %s" % (type(e).__name__, e))
             return None
+    return guard
 
-    c = guard(lambda: version_compare(sa, sb))
-    obs["cmp"] = (c > 0) - (c < 0) if isinstance(c, int) else c        # only its sign is promised
+
+def _sign(c):
+    return (c > 0) - (c < 0) if isinstance(c, int) else c           # only the sign of version_compare is promised
+
+
+def observe(sa, sb):
+    """every verdict observable of one comparison on FRESH temporaries that die after each operator
+    (a cache keyed by id() sees the addresses re-used); exceptions are observations"""
+    from debian.debian_support import Version, version_compare
+    obs = {}
+    guard = _guarded(obs)
+    obs["cmp"] = _sign(guard(lambda: version_compare(sa, sb)))
     obs["lt"] = guard(lambda: Version(sa) < Version(sb))
     obs["le"] = guard(lambda: Version(sa) <= Version(sb))
     obs["eq"] = guard(lambda: Version(sa) == Version(sb))
@@ -82,8 +102,25 @@ def observe(sa, sb):
     obs["ge"] = guard(lambda: Version(sa) >= Version(sb))
     obs["gt"] = guard(lambda: Version(sa) > Version(sb))
     obs["heq"] = guard(lambda: hash(Version(sa)) == hash(Version(sb)))
-    if exc:
-        obs["exc"] = exc
+    return obs
+
+
+def observe_pair(L, R, hl, hr, cmp=True):
+    """the same observables on GIVEN operands: L, R are Version objects or plain strings (at least one
+    Version); hl, hr the Version objects whose hashes are compared; cmp=False leaves version_compare
+    (which builds its own objects from str(L), str(R)) out"""
+    from debian.debian_support import version_compare
+    obs = {}
+    guard = _guarded(obs)
+    if cmp:
+        obs["cmp"] = _sign(guard(lambda: version_compare(L, R)))
+    obs["lt"] = guard(lambda: L < R)
+    obs["le"] = guard(lambda: L <= R)
+    obs["eq"] = guard(lambda: L == R)
+    obs["ne"] = guard(lambda: L != R)
+    obs["ge"] = guard(lambda: L >= R)
+    obs["gt"] = guard(lambda: L > R)
+    obs["heq"] = guard(lambda: hash(hl) == hash(hr))
     return obs
 
 
@@ -92,7 +129,7 @@ def judge(obs, exp_ops, exp_heq):
     sign, exp_heq = the canonical keys are equal.  Returns None or a message."""
     if "exc" in obs:
         return "the code raised %s" % obs["exc"]
-    bad = [k for k in OPKEYS if obs[k] != exp_ops[k]]
+    bad = [k for k in OPKEYS if k in obs and obs[k] != exp_ops[k]]
     if bad:
         return "specification (dpkg order) says sign %d, i.e. %s; observed %s" % (
             exp_ops["cmp"], {k: exp_ops[k] for k in bad}, {k: obs[k] for k in bad})
@@ -101,28 +138,66 @@ def judge(obs, exp_ops, exp_heq):
     return None
 
 
-def string_operand_drift(ctx, sa, sb, exp_ops):
-    """diagnostic: Version(a) <op> 'b' (plain string operand) follows the same order"""
+class Pool:
+    """long-lived Version objects, one per string, re-used for every partner they meet"""
+
+    def __init__(self):
+        self.objs = {}
+
+    def get(self, s):
+        from debian.debian_support import Version
+        o = self.objs.get(s)
+        if o is None:
+            o = self.objs[s] = Version(s)
+        return o
+
+    def churn(self, rng):
+        """delete a third of the objects (they are re-created on demand, possibly at the same address)"""
+        for k in sorted(self.objs):
+            if rng.random() < 0.34:
+                del self.objs[k]
+
+
+VARIANTS = 4
+
+
+def battery(pool, sa, sb, fwd, rev, heq, variant):
+    """one visit of a pair: pooled objects in both operand orders, plus one of: string operand on the
+    right / on the left, fresh temporaries, string operand in the reversed order.
+    fwd / rev: TLC's OPS rows for (a, b) and (b, a).  Returns None or (where, observation, message)."""
     from debian.debian_support import Version
-    try:
-        got = (Version(sa) < sb, Version(sa) == sb, Version(sa) > sb)
-    except Exception as e:
-        ctx.drift("Version(%r) <op> %r (str operand) raised %s" % (sa, sb, type(e).__name__))
-        return
-    if got != (exp_ops["lt"], exp_ops["eq"], exp_ops["gt"]):
-        ctx.drift("Version(%r) <,==,> %r (str operand) = %r, expected sign %d" % (sa, sb, got, exp_ops["cmp"]))
+    oa, ob = pool.get(sa), pool.get(sb)
+    todo = [("Version(a) <op> Version(b), pooled objects", lambda: observe_pair(oa, ob, oa, ob), fwd),
+            ("Version(b) <op> Version(a), pooled objects", lambda: observe_pair(ob, oa, ob, oa, cmp=False), rev)]
+    v = variant % VARIANTS
+    if v == 0:
+        todo.append(("Version(a) <op> 'b' (str operand)", lambda: observe_pair(oa, sb, oa, Version(sb), cmp=False), fwd))
+    elif v == 1:
+        todo.append(("'a' <op> Version(b) (str operand)", lambda: observe_pair(sa, ob, Version(sa), ob, cmp=False), fwd))
+    elif v == 2:
+        todo.append(("Version(a) <op> Version(b), fresh temporaries", lambda: observe(sa, sb), fwd))
+        todo.append(("Version(b) <op> Version(a), fresh temporaries", lambda: observe(sb, sa), rev))
+    else:
+        todo.append(("Version(b) <op> 'a' (str operand)", lambda: observe_pair(ob, sa, ob, Version(sa), cmp=False), rev))
+    for where, f, exp in todo:
+        obs = f()
+        msg = judge(obs, exp, heq)
+        if msg:
+            return where, obs, msg
+    return None
 
 
 # ------------------------------------------------------------------ concretization
 
-def concretize(rng, a, b, canonical):
-    """substitute the code points of an abstract pair by order-isomorphic ones: '0' stays '0', the
-    other digits map increasingly into 1..9, letters increasingly into A..Za..z (upper case sorts
-    before lower case, as in the model), '+' '-' '.' ':' '~' stay.  Class and relative order of all
-    characters are kept, hence dpkg's sign and the canonical-key equality are unchanged."""
+def concretize(rng, seqs, canonical):
+    """substitute the code points of the abstract strings of one case (jointly) by order-isomorphic
+    ones: '0' stays '0', the other digits map increasingly into 1..9, letters increasingly into
+    A..Za..z (upper case sorts before lower case, as in the model), '+' '-' '.' ':' '~' stay.  Class
+    and relative order of all characters are kept, hence dpkg's sign and the canonical-key equality
+    are unchanged."""
     if canonical:
-        return text(a), text(b)
-    used = sorted(set(a) | set(b))
+        return [text(x) for x in seqs]
+    used = sorted(set(c for x in seqs for c in x))
     dig = [c for c in used if 49 <= c <= 57]
     let = [c for c in used if chr(c).isalpha()]
     m = {}
@@ -130,7 +205,7 @@ def concretize(rng, a, b, canonical):
         m[c] = d
     for c, d in zip(let, sorted(rng.sample(LETTERS, len(let)))):
         m[c] = d
-    return "".join(m.get(c, chr(c)) for c in a), "".join(m.get(c, chr(c)) for c in b)
+    return ["".join(m.get(c, chr(c)) for c in x) for x in seqs]
 
 
 # ------------------------------------------------------------------ TLC design runs
@@ -144,12 +219,16 @@ def cfg_text(name, **subst):
     return txt
 
 
-def design_run(ctx, name, stride, offset):
-    r = ctx.tlc_must_hold("DpkgVersionMC", cfg_text(name, EmitStride=stride, EmitOffset=offset),
-                          workers=WORKERS, java_opts=JAVA, want_tags={"CASE", "OPS"})
-    cases = [tuple(map(_freeze, c)) for c in r.printed.get("CASE", [])]
+def design_run(ctx, name, stride, offset, module="DpkgVersionMC", tag="CASE"):
+    r = ctx.tlc_must_hold(module, cfg_text(name, EmitStride=stride, EmitOffset=offset),
+                          workers=WORKERS, java_opts=JAVA, want_tags={tag, "OPS"})
+    cases = [tuple(map(_freeze, c)) for c in r.printed.get(tag, [])]
     cases = sorted(set(cases))                       # the workers print in no fixed order
     ops = {row["cmp"]: row for row in r.printed.get("OPS", [])}
+    if sorted(ops) != [-1, 0, 1]:
+        raise core.MachineryError("TLC did not print the OPS table (%r)" % (ops,))
+    if not cases:
+        raise core.MachineryError("%s emitted no %s line" % (name, tag))
     return r, cases, ops
 
 
@@ -157,49 +236,196 @@ def _freeze(x):
     return tuple(x) if isinstance(x, list) else x
 
 
+CONTROLS = (   # (module, cfg, switch, the only invariant kept, ...)
+    ("DpkgVersionMC", "MC_DpkgVersion_control.cfg", "HashOnString", "HashConsistent"),
+    ("DpkgVersionMC", "MC_DpkgVersion_control.cfg", "TildeOrderZero", "Agree"),
+    ("DpkgVersionObj", "MC_DpkgVersion_obj_control.cfg", "StaleKey", "Agree"),
+    ("DpkgVersionObj", "MC_DpkgVersion_obj_control.cfg", "StaleKey", "HashConsistent"),
+)
+
+
 def negative_controls(ctx):
+    """each switch must make TLC report exactly the named invariant (the four runs are tiny and run
+    side by side)"""
+    from concurrent.futures import ThreadPoolExecutor
+
+    def one(c):
+        module, cfg, switch, inv = c
+        txt = cfg_text(cfg, **{switch: "TRUE"})
+        txt = "\n".join(l for l in txt.splitlines() if not l.startswith("INVARIANT") or l.split()[1] == inv)
+        return core.run_tlc(module, txt, ctx.work, workers=2, java_opts=JAVA, want_tags=set(), timeout=600)
+
+    with ThreadPoolExecutor(max_workers=len(CONTROLS)) as ex:
+        results = list(ex.map(one, CONTROLS))
     out = {}
-    for switch, inv in (("HashOnString", "HashConsistent"), ("TildeOrderZero", "Agree")):
-        r = ctx.tlc("DpkgVersionMC", cfg_text("MC_DpkgVersion_control.cfg", **{switch: "TRUE"}),
-                    count=False, workers=2, java_opts=JAVA, want_tags=set())
+    for (module, cfg, switch, inv), r in zip(CONTROLS, results):
+        ctx.tlc_runs.append({"module": module, "generated": r.generated, "distinct": r.distinct, "depth": r.depth,
+                             "wall_s": round(r.wall, 2), "violated": r.violated, "negative_control": switch})
         if r.violated != inv:
             raise core.MachineryError("spec-level negative control %s=TRUE: expected %s to be violated, TLC says %r"
                                       % (switch, inv, r.violated))
-        out[switch] = "%s violated after %d states" % (inv, r.generated)
+        out["%s -> %s" % (switch, inv)] = "violated after %d states" % r.generated
     ctx.extra["spec_negative_controls"] = out
 
 
 # ------------------------------------------------------------------ replay of TLC's cases (spec -> code)
 
+CHUNK = 64
+
+
 def replay_cases(ctx, cases, ops, nconc, label):
+    """cases: (a, b, sign, canonical keys equal, sign of (b, a)).  A chunk of cases shares a pool of
+    objects; every pair of the chunk is visited twice (second round in reverse order, after a third of
+    the pool was re-created), each visit with a different extra operand form."""
     rng = ctx.rng
     per_sign = {-1: 0, 0: 0, 1: 0}
     n = 0
-    for idx, (a, b, s, h) in enumerate(cases):
+    for c0 in range(0, len(cases), CHUNK):
         if len(ctx.violations) >= ctx.max_violation_files:
             break
-        per_sign[s] += 1
-        ctx.case_seen((a, b), a != b)
-        for c in range(nconc):
-            sa, sb = concretize(rng, a, b, canonical=(c == 0))
-            obs = observe(sa, sb)
-            n += 1
-            msg = judge(obs, ops[s], h)
-            if msg:
-                ctx.violation({"kind": "case", "abstract": [text(a), text(b)], "a": sa, "b": sb,
-                               "expected_ops": ops[s], "expected_hash_equal": h, "observed": obs, "config": label},
-                              "Version(%r) vs Version(%r): %s" % (sa, sb, msg))
-                break
-            if not h and obs.get("heq") is True:
-                ctx.drift("hash collision of unequal versions %r %r" % (sa, sb))
-            if idx % 97 == 0 and c == 0:
-                string_operand_drift(ctx, sa, sb, ops[s])
-        if idx in (len(cases) // 3, len(cases) // 2) and s == 0 and a != b:
+        pool = Pool()
+        items = []
+        for idx, (a, b, s, h, rv) in enumerate(cases[c0:c0 + CHUNK]):
+            per_sign[s] += 1
+            ctx.case_seen((a, b), a != b)
+            for c in range(nconc):
+                sa, sb = concretize(rng, [a, b], canonical=(c == 0 and (nconc > 1 or idx % 2 == 0)))
+                items.append([a, b, sa, sb, s, h, rv, c0 + idx + c, False])
+        for rnd in (0, 1):
+            for it in (items if rnd == 0 else reversed(items)):
+                a, b, sa, sb, s, h, rv, k, failed = it
+                if failed:
+                    continue
+                n += 1
+                bad = battery(pool, sa, sb, ops[s], ops[rv], h, k + 2 * rnd + 1)
+                if bad:
+                    where, obs, msg = bad
+                    it[8] = True
+                    ctx.violation({"kind": "case", "abstract": [text(a), text(b)], "a": sa, "b": sb,
+                                   "expected_ops": ops[s], "expected_ops_reversed": ops[rv], "expected_hash_equal": h,
+                                   "where": where, "visit": rnd + 1, "observed": obs, "config": label},
+                                  "%s with a=%r b=%r (visit %d of the pair): %s" % (where, sa, sb, rnd + 1, msg))
+                    if len(ctx.violations) >= ctx.max_violation_files:
+                        break
+            pool.churn(rng)
+    for a, b, s, h, rv in cases[len(cases) // 3:]:
+        if s == 0 and a != b:
             ctx.sample("%s case %r == %r (hash equal)" % (label, text(a), text(b)))
-    mid = cases[len(cases) // 2] if cases else None
-    if mid:
-        ctx.sample("%s case: %r vs %r -> sign %d, canonical keys equal: %s" % (label, text(mid[0]), text(mid[1]), mid[2], mid[3]))
+            break
+    mid = cases[len(cases) // 2]
+    ctx.sample("%s case: %r vs %r -> sign %d, canonical keys equal: %s" % (label, text(mid[0]), text(mid[1]), mid[2], mid[3]))
     return n, per_sign
+
+
+# ------------------------------------------------------------------ replay of TLC's assignments (object layer)
+
+def split(s):
+    """D2 decomposition, used only to DRIVE component assignments (never for a verdict)"""
+    ep = None
+    if ":" in s:
+        ep, s = s.split(":", 1)
+    rev = None
+    if "-" in s:
+        s, rev = s.rsplit("-", 1)
+    return ep, s, rev
+
+
+def assign(obj, how, value, alias=False):
+    if how == "full":
+        obj.full_version = value
+    elif how == "epoch":
+        obj.epoch = value or None
+    elif how == "upstream":
+        obj.upstream_version = value
+    elif how == "revision":
+        if alias:
+            obj.debian_version = value or None
+        else:
+            obj.debian_revision = value or None
+    else:                       # "parts": reach the string `value` by component assignments only; the
+        e2, u2, r2 = split(value)   # order keeps every intermediate string valid (':' / '-' in the upstream
+        if e2 is not None:          # part need an epoch / a revision): grow, replace upstream, shrink
+            obj.epoch = e2
+        if r2 is not None:
+            obj.debian_revision = r2
+        obj.upstream_version = u2
+        if e2 is None:
+            obj.epoch = None
+        if r2 is None:
+            obj.debian_revision = None
+
+
+def run_mut(pool, sv, how, exp0, exp1, k):
+    """sv = [s1, s2, assigned value, new s1]; exp = (OPS row fwd, OPS row rev, hash equal) before / after.
+    Returns ("ok" | "skip" | "bad", detail)"""
+    from debian.debian_support import Version
+    s1, s2, arg, s1n = sv
+    a = Version(s1)
+    b = pool.get(s2)
+
+    def look(exp, stage, first=True):
+        fwd, rev, heq = exp
+        todo = [("a <op> b", lambda: observe_pair(a, b, a, b, cmp=first), fwd),
+                ("b <op> a", lambda: observe_pair(b, a, b, a, cmp=False), rev)]
+        if k % 3 == 0 and not first:
+            todo.append(("a <op> 'b' (str operand)", lambda: observe_pair(a, s2, a, b, cmp=False), fwd))
+        elif k % 3 == 1 and not first:
+            todo.append(("'b' <op> a (str operand)", lambda: observe_pair(s2, a, b, a, cmp=False), rev))
+        for where, f, e in todo:
+            obs = f()
+            msg = judge(obs, e, heq)
+            if msg:
+                return "%s, %s" % (where, stage), obs, msg
+        return None
+
+    bad = look(exp0, "before the assignment") or look(exp0, "before the assignment, second time", False)
+    if bad:
+        return "bad", bad
+    try:
+        assign(a, how, arg, alias=(k % 2 == 1))
+    except Exception as e:
+        return "skip", "assignment %s=%r on Version(%r) raised %s" % (how, arg, s1, type(e).__name__)
+    if str(a) != s1n:
+        return "skip", "assignment %s=%r on Version(%r) gives %r, not %r" % (how, arg, s1, str(a), s1n)
+    bad = look(exp1, "AFTER the assignment") or look(exp1, "AFTER the assignment, second time", False)
+    if bad:
+        return "bad", bad
+    return "ok", None
+
+
+def replay_muts(ctx, muts, ops, nconc):
+    rng = ctx.rng
+    n = 0
+    per_how = {}
+    pool = Pool()
+    for idx, m in enumerate(muts):
+        if len(ctx.violations) >= ctx.max_violation_files:
+            break
+        v1, v2, how, arg, v1n, ref0, rev0, ceq0, ref1, rev1, ceq1 = m
+        per_how[how] = per_how.get(how, 0) + 1
+        ctx.case_seen(("mut", v1, v2, how, arg), v1 != v1n)
+        if idx % CHUNK == CHUNK - 1:
+            pool.churn(rng)
+        for c in range(nconc):
+            sv = concretize(rng, [v1, v2, arg, v1n], canonical=(c == 0 and (nconc > 1 or idx % 2 == 0)))
+            exp0 = (ops[ref0], ops[rev0], ceq0)
+            exp1 = (ops[ref1], ops[rev1], ceq1)
+            n += 1
+            st, detail = run_mut(pool, sv, how, exp0, exp1, idx + c)
+            if st == "skip":
+                ctx.drift(detail)
+            elif st == "bad":
+                where, obs, msg = detail
+                ctx.violation({"kind": "mut", "strings": sv, "how": how, "k": idx + c, "expected_before": exp0,
+                               "expected_after": exp1, "where": where, "observed": obs},
+                              "a=Version(%r), b=Version(%r); assignment a.%s = %r (a becomes %r): %s: %s"
+                              % (sv[0], sv[1], how, sv[2], sv[3], where, msg))
+                break
+    if muts:
+        m = muts[len(muts) // 2]
+        ctx.sample("obj case: Version(%r).%s = %r -> %r, then vs %r: sign %d -> %d" % (
+            text(m[0]), m[2], text(m[3]), text(m[4]), text(m[1]), m[5], m[8]))
+    return n, per_how
 
 
 # ------------------------------------------------------------------ random versions (code -> spec)
@@ -324,24 +550,70 @@ def near(rng, v):
     return v
 
 
+def _event(i, j, obs, src):
+    e = {"i": i + 1, "j": j + 1, "src": src}
+    ok = "exc" not in obs and isinstance(obs["cmp"], int) and \
+        all(isinstance(obs[k], (bool, int)) for k in OPKEYS[1:] + ("heq",))
+    if ok:
+        e.update({k: bool(obs[k]) for k in OPKEYS[1:]}, cmp=int(obs["cmp"]), heq=bool(obs["heq"]))
+    else:
+        e.update({k: False for k in OPKEYS[1:]}, cmp=EXC, heq=False, exc=obs.get("exc") or "non-boolean result %r" % (obs,))
+    return e
+
+
 def record_trace(strs):
-    """run every ordered pair of distinct positions (and one reflexive pair) through the real code"""
+    """run the strings of one trace through the real code (deterministic for given strings).  Every
+    event is one full observation of the pair (string i, string j) -- i, j being the strings the two
+    operands HOLD at that moment:
+      1. long-lived objects, every ordered pair, and an object with itself
+      2. a plain-string operand on either side / fresh temporaries
+      3. one more object m walks through every string of the trace by assignment (alternately
+         full_version and component-wise) and is compared, both ways, with every long-lived object
+         after each assignment -- including the object holding the same string (equal, equal hashes)
+      4. half of the long-lived objects are deleted and re-created; every ordered pair again"""
+    from debian.debian_support import Version
     n = len(strs)
-    pairs = [(i, j) for i in range(n) for j in range(n) if i != j] + [(0, 0)]
+    pairs = [(i, j) for i in range(n) for j in range(n) if i != j]
     events = []
+    notes = []
+    pool = [Version(x) for x in strs]
+
+    def ev(i, j, L, R, hl, hr, src):
+        events.append(_event(i, j, observe_pair(L, R, hl, hr), src))
+
     for i, j in pairs:
-        obs = observe(strs[i], strs[j])
-        e = {"i": i + 1, "j": j + 1}
-        if "exc" in obs:
-            e.update({k: False for k in OPKEYS[1:]}, cmp=EXC, heq=False, exc=obs["exc"])
+        ev(i, j, pool[i], pool[j], pool[i], pool[j], "objects")
+    ev(0, 0, pool[0], pool[0], pool[0], pool[0], "same object")
+    for k, (i, j) in enumerate(pairs):
+        if k % 3 == 0:
+            ev(i, j, pool[i], strs[j], pool[i], Version(strs[j]), "Version <op> str")
+        elif k % 3 == 1:
+            ev(i, j, strs[i], pool[j], Version(strs[i]), pool[j], "str <op> Version")
         else:
-            ok = isinstance(obs["cmp"], int) and all(isinstance(obs[k], (bool, int)) for k in OPKEYS[1:] + ("heq",))
-            if ok:
-                e.update({k: bool(obs[k]) for k in OPKEYS[1:]}, cmp=int(obs["cmp"]), heq=bool(obs["heq"]))
-            else:
-                e.update({k: False for k in OPKEYS[1:]}, cmp=EXC, heq=False, exc="non-boolean result %r" % (obs,))
-        events.append(e)
-    return {"vs": [cps(s) for s in strs], "strs": list(strs), "events": events}
+            events.append(_event(i, j, observe(strs[i], strs[j]), "fresh temporaries"))
+    m = Version(strs[0])
+    for j in range(1, n):
+        ev(0, j, m, pool[j], m, pool[j], "m before any assignment")
+    for t in list(range(1, n)) + [0]:
+        how = "full" if (t + len(strs[t])) % 2 else "parts"
+        try:
+            assign(m, how, strs[t])
+        except Exception as e:
+            notes.append("assigning %r to Version(%r) by %s raised %s" % (strs[t], str(m), how, type(e).__name__))
+            break
+        if str(m) != strs[t]:
+            notes.append("assigning %r by %s gives %r" % (strs[t], how, str(m)))
+            break
+        for j in range(n):
+            ev(t, j, m, pool[j], m, pool[j], "m assigned (%s) <op> object" % how)
+            if j != t:
+                ev(j, t, pool[j], m, pool[j], m, "object <op> m assigned (%s)" % how)
+    for i in range(0, n, 2):
+        pool[i] = None
+        pool[i] = Version(strs[i])
+    for i, j in reversed(pairs):
+        ev(i, j, pool[i], pool[j], pool[i], pool[j], "objects, second time")
+    return {"vs": [cps(x) for x in strs], "strs": list(strs), "events": events, "notes": notes}
 
 
 def make_traces(rng, n):
@@ -349,15 +621,19 @@ def make_traces(rng, n):
     for t in range(n):
         a = gen_version(rng)
         k = rng.random()
-        if k < 0.55:
+        if k < 0.40:
             vs = [a, near(rng, a)]
-        elif k < 0.70:
+        elif k < 0.50:
             vs = [a, gen_version(rng)]
-        elif k < 0.92:
+        elif k < 0.78:
             b = near(rng, a)
             vs = [a, b, near(rng, rng.choice([a, b]))]
-        else:
+        elif k < 0.86:
             vs = [a, near(rng, a), gen_version(rng)]
+        else:
+            b = near(rng, a)
+            c = near(rng, b)
+            vs = [a, b, c, near(rng, rng.choice([a, c]))]
         rng.shuffle(vs)
         traces.append(record_trace([join(v) for v in vs]))
     return traces
@@ -386,7 +662,7 @@ def corrupt(t, how):
 
 def validate(ctx, traces, with_controls=True):
     """returns [(trace index, index of first unexplained event)]"""
-    slim = [{"vs": t["vs"], "events": [{k: v for k, v in e.items() if k != "exc"} for e in t["events"]]} for t in traces]
+    slim = [{"vs": t["vs"], "events": [{k: v for k, v in e.items() if k not in ("exc", "src")} for e in t["events"]]} for t in traces]
     controls = []
     if with_controls:
         for how in ("sign", "op", "equal", "hash"):
@@ -493,36 +769,41 @@ def run(ctx):
     negative_controls(ctx)
 
     # 2. design: bounded-exhaustive configurations; the same runs emit the cases to replay
-    plan = ([("MC_DpkgVersion_parts.cfg", 16), ("MC_DpkgVersion_full.cfg", 32), ("MC_DpkgVersion_triples.cfg", 1)]
+    plan = ([("MC_DpkgVersion_parts.cfg", 32), ("MC_DpkgVersion_full.cfg", 64), ("MC_DpkgVersion_triples.cfg", 1)]
             if quick else
             [("MC_DpkgVersion_parts_thorough.cfg", 200), ("MC_DpkgVersion_full_thorough.cfg", 100),
              ("MC_DpkgVersion_triples_thorough.cfg", 1)])
-    nconc = 2 if quick else 4
-    ops = None
+    nconc = 1 if quick else 3      # 1: canonical and random concretizations alternate
     replayed = 0
     ctx.extra["configs"] = {}
+
+    def note(name, r, stride, offset, **kw):
+        consts = dict(re.findall(r"(?m)^\s*(Epochs|Revs|UpChars|MaxUp|Seps|Triples)\s*(?:=|<-)\s*(.+?)\s*$", cfg_text(name)))
+        ctx.extra["configs"][name] = dict({"constants": consts, "states": r.distinct, "transitions": r.generated,
+                                           "wall_s": round(r.wall, 1), "emit_stride": stride, "emit_offset": offset}, **kw)
+
     for name, stride in plan:
         offset = rng.randrange(stride)
-        r, cases, o = design_run(ctx, name, stride, offset)
-        if sorted(o) != [-1, 0, 1]:
-            raise core.MachineryError("TLC did not print the OPS table (%r)" % (o,))
-        ops = o
-        if not cases:
-            raise core.MachineryError("%s emitted no CASE line" % name)
+        r, cases, ops = design_run(ctx, name, stride, offset)
         n, per_sign = replay_cases(ctx, cases, ops, nconc, name[len("MC_DpkgVersion_"):-len(".cfg")])
         replayed += n
-        consts = dict(re.findall(r"(?m)^\s*(Epochs|Revs|UpChars|MaxUp|Seps|Triples)\s*(?:=|<-)\s*(.+?)\s*$", cfg_text(name)))
         nv = next(k for k in range(1, 100000) if k + k * k + (k ** 3 if r.depth == 3 else 0) >= r.distinct)
-        ctx.extra["configs"][name] = {"constants": consts, "versions": nv,
-                                      "per_action": {"Compare": nv * nv, "Third": nv ** 3 if r.depth == 3 else 0},
-                                      "states": r.distinct, "wall_s": round(r.wall, 1), "emit_stride": stride,
-                                      "emit_offset": offset, "cases": len(cases),
-                                      "cases_per_sign": {str(k): v for k, v in per_sign.items()}, "replays": n}
+        note(name, r, stride, offset, versions=nv,
+             per_action={"Compare": nv * nv, "Third": nv ** 3 if r.depth == 3 else 0}, cases=len(cases),
+             cases_per_sign={str(k): v for k, v in per_sign.items()}, pair_visits=n)
+
+    # 2b. object layer: closed state space of two mutable objects; assignments replayed
+    name, stride = ("MC_DpkgVersion_obj.cfg", 48) if quick else ("MC_DpkgVersion_obj_thorough.cfg", 60)
+    offset = rng.randrange(stride)
+    r, muts, ops = design_run(ctx, name, stride, offset, module="DpkgVersionObj", tag="MUT")
+    n, per_how = replay_muts(ctx, muts, ops, nconc)
+    replayed += n
+    note(name, r, stride, offset, assignments_replayed=n, mut_lines=len(muts), mut_lines_per_action=per_how)
     ctx.extra["ops_table_from_tlc"] = {str(k): v for k, v in ops.items()}
     ctx.extra["behaviours_replayed"] = replayed
 
     # 3. code -> spec: recorded comparisons validated by TLC on the concrete code points
-    ntr = 2000 if quick else 12000
+    ntr = 1200 if quick else 8000
     traces = make_traces(rng, ntr)
     nev = sum(len(t["events"]) for t in traces)
     bad, nrej = validate(ctx, traces)
@@ -530,9 +811,17 @@ def run(ctx):
     ctx.evaluations += nev
     for t in traces:
         ctx.distinct.add(("trace",) + tuple(t["strs"]))
+        for x in t["notes"]:
+            ctx.drift(x)
+    srcs = {}
+    for t in traces:
+        for e in t["events"]:
+            k = re.sub(r" \((full|parts)\)", "", e["src"])
+            srcs[k] = srcs.get(k, 0) + 1
     eqpairs = sum(1 for t in traces for e in t["events"] if e["cmp"] == 0 and e["i"] < e["j"]
                   and t["strs"][e["i"] - 1] != t["strs"][e["j"] - 1])
-    ctx.extra["traces"] = {"recorded": len(traces), "comparisons": nev, "rejected": nrej,
+    ctx.extra["traces"] = {"recorded": len(traces), "comparisons": nev, "rejected": nrej, "comparisons_per_source": srcs,
+                           "assignments_not_completed": sum(1 for t in traces if t["notes"]),
                            "equal_pairs_with_different_spelling": eqpairs,
                            "max_len": max(len(s) for t in traces for s in t["strs"])}
     for t in traces:
@@ -544,10 +833,10 @@ def run(ctx):
     for i, at in bad[:5]:
         t = traces[i]
         e = t["events"][at] if at < len(t["events"]) else None
-        where = "?" if e is None else "%r vs %r" % (t["strs"][e["i"] - 1], t["strs"][e["j"] - 1])
+        where = "?" if e is None else "%r vs %r [%s]" % (t["strs"][e["i"] - 1], t["strs"][e["j"] - 1], e["src"])
         ctx.violation({"kind": "trace", "strs": t["strs"], "first_unexplained_event": at + 1, "event": e},
                       "recorded comparison not explained by the dpkg reference (DpkgVersion.tla): %s observed %r"
-                      % (where, e))
+                      % (where, {k: v for k, v in (e or {}).items() if k not in ("i", "j", "src")}))
 
     # 4. dpkg itself as a second oracle (also validates the transcription of the reference)
     dpkg_crosscheck(ctx, traces, {i for i, _ in bad}, 150 if quick else 5000)
@@ -557,8 +846,22 @@ def replay(ctx, case):
     ctx.import_repo()
     kind = case.get("kind")
     if kind == "case":
-        obs = observe(case["a"], case["b"])
-        return judge(obs, case["expected_ops"], case["expected_hash_equal"])
+        pool = Pool()
+        for rnd in (0, 1):
+            for v in range(VARIANTS):
+                bad = battery(pool, case["a"], case["b"], case["expected_ops"], case["expected_ops_reversed"],
+                              case["expected_hash_equal"], v)
+                if bad:
+                    return "%s: %s" % (bad[0], bad[2])
+            pool.churn(random.Random(rnd))
+        return None
+    if kind == "mut":
+        for k in range(6):
+            st, detail = run_mut(Pool(), case["strings"], case["how"], tuple(case["expected_before"]),
+                                 tuple(case["expected_after"]), k)
+            if st == "bad":
+                return "%s: %s" % (detail[0], detail[2])
+        return None
     if kind == "trace":
         t = record_trace(case["strs"])
         bad, nrej = validate(ctx, [t], with_controls=False)
